@@ -33,13 +33,16 @@ Fixpoint trim_index (w : list Q) (thr : nat -> Q) (frac : Q) (i : nat) : option 
   if ratio_ok w (thr i) frac then Some i
   else match i with O => None | S i' => trim_index w thr frac i' end.
 
-(** the loop on already-normalised weights *)
+(** the index the code's loop stops at: it also stops at grid index 0 whatever the ratio test says there (the test can only fail at
+    index 0 through rounding: every sample is kept) - so it stops for EVERY threshold oracle and every requested fraction *)
+Definition trim_stop (w : list Q) (thr : nat -> Q) (frac : Q) (i : nat) : nat :=
+  match trim_index w thr frac i with Some k => k | None => 0%nat end.
+
+(** the loop on already-normalised weights (always Some: kept as an option for the callers written against the earlier loop) *)
 Definition trim_core {A} (samples : list A) (w : list Q) (thr : nat -> Q) (frac : Q) (bins : nat)
   : option (list A * list Q * nat) :=
-  match trim_index w thr frac (bins - 1) with
-  | None => None
-  | Some i => Some (select (mask_at w (thr i)) samples, trimmed_at w (thr i), i)
-  end.
+  let i := trim_stop w thr frac (bins - 1) in
+  Some (select (mask_at w (thr i)) samples, trimmed_at w (thr i), i).
 Definition trim_weights {A} (samples : list A) (weights : list Q) (thr : nat -> Q) (frac : Q) (bins : nat)
   : option (list A * list Q * nat) :=
   trim_core samples (normalise weights) thr frac bins.
